@@ -42,7 +42,7 @@ def run_bounded(tier, seed):
         n, f, inp = DH.bounded(tier, seed)
         gc.collect()
     return {'tool': 'reference dispatcher vs DBusObjectHandler.handleMethodCallMessage on generated interface declarations and calls',
-            'bound': '%d random two-level class hierarchies (1-3 interfaces, members shared between interfaces, dbus_<name> and decorator bindings, re-bound base methods) x 25 calls each (right / wrong path, interface, member, signature; reply expected or not) x 9 outcomes (value, Deferred fired / failed later, exceptions with DBus name, without, invalid name, NUL text, a class name that is no DBus name element, unencodable value); Peer.Ping / Introspect' % (1500 if tier == 'thorough' else 40),
+            'bound': '%d random two-level class hierarchies (1-3 interfaces, members shared between interfaces, dbus_<name> and decorator bindings, re-bound base methods) x 25 calls each (right / wrong path, interface, member, signature; reply expected or not) x 9 outcomes (value, Deferred fired / failed later, exceptions with DBus name, without, invalid name, NUL text, a class name that is no DBus name element, unencodable value); Peer.Ping / Introspect' % (6000 if tier == 'thorough' else 40),
             'evaluations': n, 'failures': [] if not f else [{'function': 'txdbus.objects.DBusObjectHandler.handleMethodCallMessage', 'clause': 'dispatch', 'input': inp, 'detail': f}]}
 
 
